@@ -26,6 +26,10 @@ def runMapping (lines : List String) : List String :=
       | ["unset", k] =>
         let (m', p) := Mapping.unset m (nat! k)
         go m' rest (s!"prev {optStr p}" :: acc)
+      | ["getmut", k, v] =>
+        let (m', p) := Mapping.getMut m (nat! k) (nat! v)
+        go m' rest (s!"mut {optStr p}" :: acc)
+      | ["slots"] => go m rest (s!"slots {Mapping.slots m}" :: acc)
       | ["get", k] => go m rest (s!"val {optStr (Mapping.get m (nat! k))}" :: acc)
       | ["len"] => go m rest (s!"len {m.len} empty {if Mapping.isEmpty m then 1 else 0}" :: acc)
       | ["iter"] =>
